@@ -517,6 +517,40 @@ impl RawLexer {
         if !char_3.is_ascii() {
             return false;
         }
+        // If the carets are followed by two lowercase hexadecimal digits,
+        // the four characters stand for the character with that code (TeX.2021.352, TeX.2021.355).
+        let is_hex = |c: char| c.is_ascii_digit() || ('a'..='f').contains(&c);
+        let char_4_start = char_3_start + char_3.len_utf8();
+        if let Some(char_4) = self.current_line[char_4_start..].chars().next() {
+            if is_hex(char_3) && is_hex(char_4) {
+                let code = char_3.to_digit(16).unwrap() * 16 + char_4.to_digit(16).unwrap();
+                let c = char::from_u32(code).expect("code<256 so it is a valid char");
+                // Skip the two carets.
+                if !char_1_consumed {
+                    self.advance();
+                }
+                self.advance();
+                let mut buffer = [0_u8; 2];
+                let encoded = c.encode_utf8(&mut buffer).as_bytes();
+                if encoded.len() == 1 {
+                    // Also skip the first hexadecimal digit and overwrite the second one.
+                    self.advance();
+                } else {
+                    // The two digits become a single two byte character. There is one trace key
+                    // for each character of the source code, so one key is not used.
+                    self.trace_key_range.next();
+                }
+                // SAFETY: the two hexadecimal digits are single-byte/ASCII characters.
+                // They are replaced either by a two byte character (starting at the
+                // first digit), or the second digit is replaced by a single-byte/ASCII
+                // character. In both cases this preserves the UTF-8 structure of the string.
+                unsafe {
+                    let bytes = self.current_line.as_bytes_mut();
+                    bytes[self.pos..self.pos + encoded.len()].copy_from_slice(encoded);
+                }
+                return true;
+            }
+        }
         if !char_1_consumed {
             self.advance();
         }
